@@ -39,20 +39,24 @@ def serverStreams0 (g : Conn.Cfg) (ecp : Bool) : Streams :=
                 prioritize := { flow := flowInit0, maxBufferSize := g.sendbuf } } },
     refs := 1 }
 
+/-- the builder was given a legal `initial_connection_window_size` (the real builder asserts `≤ 2^31-1`) -/
+def CwsOK (g : Conn.Cfg) : Prop := ∀ sz, g.cws = some sz → sz ≤ 2147483647
+
 /-- **`Conn.init`**: the SETTINGS frame is buffered, `SendRequest` clones the handle, `set_target_window_size` -/
-theorem init_hist (g : Conn.Cfg) : HistW ConnP (clientStreams0 g) {} (Conn.init g).streams (Conn.init g).codec.w := by
+theorem init_hist (g : Conn.Cfg) (hg : CwsOK g) :
+    HistW ConnP (clientStreams0 g) {} (Conn.init g).streams (Conn.init g).codec.w := by
   unfold Conn.init
   dsimp only
   have h1 : HistW ConnP (clientStreams0 g) {} (clientStreams0 g)
       (({} : Writer).bufferSimple (6 * (Frame.settingsOrder g.settings).length) (Conn.renderSettings false g.settings)) :=
     .w1 (.bufferSimple _ _ _) rfl
   have h2 := h1.trans (.op1 (s' := (clientStreams0 g).cloneHandle) .cloneHandle trivial rfl rfl rfl)
-  cases g.cws with
+  cases hc : g.cws with
   | none => exact h2
-  | some sz => exact h2.trans (.op1 (.setTargetConnectionWindow sz) trivial rfl rfl rfl)
+  | some sz => exact h2.trans (.op1 (.setTargetConnectionWindow sz) (hg sz hc) rfl rfl rfl)
 
 /-- **`Conn.initServer`**: the SETTINGS frame is buffered and flushed, `set_target_window_size` -/
-theorem initServer_hist (g : Conn.Cfg) (ecp : Bool) (pf : Bytes) :
+theorem initServer_hist (g : Conn.Cfg) (ecp : Bool) (pf : Bytes) (hg : CwsOK g) :
     HistW ConnP (serverStreams0 g ecp) {} (Conn.initServer g ecp pf).streams (Conn.initServer g ecp pf).codec.w := by
   unfold Conn.initServer
   dsimp only
@@ -61,9 +65,9 @@ theorem initServer_hist (g : Conn.Cfg) (ecp : Bool) (pf : Bytes) :
       (({} : Writer).bufferSimple (6 * (Frame.settingsOrder settings).length) (Conn.renderSettings false settings)) :=
     .w1 (.bufferSimple _ _ _) rfl
   have h2 := h1.trans (.w1 (.flush _ { rd := pf } WAKER_CONN) rfl)
-  cases g.cws with
+  cases hc : g.cws with
   | none => exact h2
-  | some sz => exact h2.trans (.op1 (.setTargetConnectionWindow sz) trivial rfl rfl rfl)
+  | some sz => exact h2.trans (.op1 (.setTargetConnectionWindow sz) (hg sz hc) rfl rfl rfl)
 
 -- ===================================================================== the invariant of a new connection
 
@@ -96,9 +100,9 @@ theorem reader0_ok (g : Conn.Cfg) (hg : CfgOK g) : (reader0 g).maxFrameLen ≤ 1
     cases g.mhl <;> exact ⟨this, rfl⟩
 
 theorem rdOK_of_new {c : Conn} {g : Conn.Cfg} {v : List (Nat × Nat)} (hg : CfgOK g) (hr : c.codec.r = reader0 g)
-    (hl : c.settings.loc = .waitingAck v) (hv : ConnCtlP.getS v 5 = g.mfs) : RdOK c := by
+    (hl : c.settings.loc = .waitingAck v) (hv : ConnCtlP.getS v 5 = g.mfs) (hrem : c.settings.remote = none) : RdOK c := by
   obtain ⟨r1, r2⟩ := reader0_ok g hg
-  refine ⟨by rw [hr]; exact r1, (by rw [hr, r2]; intro n hn; cases hn), ?_⟩
+  refine ⟨by rw [hr]; exact r1, (by rw [hr, r2]; intro n hn; cases hn), ?_, (by rw [hrem]; intro v hv; cases hv)⟩
   intro v' m hv' hm
   have : v' = v := by
     rcases hv' with h | h <;> rw [hl] at h
@@ -110,10 +114,11 @@ theorem rdOK_of_new {c : Conn} {g : Conn.Cfg} {v : List (Nat × Nat)} (hg : CfgO
 
 /-- **a new client connection satisfies the connection invariant** -/
 theorem init_ok (g : Conn.Cfg) (hg : CfgOK g) : ConnOK (Conn.init g) := by
-  refine ⟨ConnCtlP.goAwayInv_init g, ?_, rdOK_of_new (g := g) (v := g.settings) hg ?_ ?_ (getS5_cfg g)⟩
+  refine ⟨ConnCtlP.goAwayInv_init g, ?_, rdOK_of_new (g := g) (v := g.settings) hg ?_ ?_ (getS5_cfg g) ?_⟩
   · intro p hp
     have : (Conn.init g).pingPong.pendingPing = none := by unfold Conn.init; cases g.cws <;> rfl
     rw [this] at hp; cases hp
+  · unfold Conn.init; cases g.cws <;> rfl
   · unfold Conn.init; cases g.cws <;> rfl
   · unfold Conn.init; cases g.cws <;> rfl
 
@@ -121,10 +126,11 @@ theorem init_ok (g : Conn.Cfg) (hg : CfgOK g) : ConnOK (Conn.init g) := by
 theorem initServer_ok (g : Conn.Cfg) (ecp : Bool) (pf : Bytes) (hg : CfgOK g) : ConnOK (Conn.initServer g ecp pf) := by
   refine ⟨ConnCtlP.goAwayInv_initServer g ecp pf, ?_,
     rdOK_of_new (g := g) (v := (({ g with push := none } : Conn.Cfg).settings) ++ (if ecp then [(8, 1)] else [])) hg ?_ ?_
-      (getS5_cfg_server g ecp)⟩
+      (getS5_cfg_server g ecp) ?_⟩
   · intro p hp
     have : (Conn.initServer g ecp pf).pingPong.pendingPing = none := by unfold Conn.initServer; cases g.cws <;> rfl
     rw [this] at hp; cases hp
+  · unfold Conn.initServer; cases g.cws <;> rfl
   · unfold Conn.initServer; cases g.cws <;> rfl
   · unfold Conn.initServer; cases g.cws <;> rfl
 
